@@ -116,7 +116,10 @@ class C09(Prop):
                             [[a, [Fraction(p)]] for a, p in r['close']],
                             [[a, int(q)] for a, q in o['held']], list(r['universe']),
                             [[a, Fraction(w)] for a, w in r['alpha']]])
-        return ('pcm_seq', ins)
+                if c.get('opt_equal') is not None:
+                    # the model's own equal-weight optimiser (exact scale / N) is given the raw alpha weights
+                    ins[-1] = ['equal', Fraction(c['opt_equal'])] + ins[-1][:-1] + [[[a, Fraction(w)] for a, w in r['alpha_in']]]
+        return ('pcm_opt_seq' if c.get('opt_equal') is not None else 'pcm_seq', ins)
 
     def judge(self, c, impl, mod):
         j = Judgement()
